@@ -16,4 +16,4 @@ def run(ctx):
     core.run_harness(ctx, "c18", 20000 if th else 960, xdg=xdg)
     core.run_harness(ctx, "c18", 1500 if th else 96, variant="asan", xdg=xdg)
     ctx.min_events = {"requests_compared": 5000, "op.wake": 1000, "op.pad": 1000, "op.csr": 1000,
-                      "non_power_of_two_lengths": 200}
+                      "non_power_of_two_lengths": 200, "impedances_ending_early": 100}
